@@ -151,6 +151,8 @@ class Interp:
                     self.stats["refused"] += 1
                     self.stats["refused-on-nonempty"] += bool(self.model)
             self.check_invariant("add")
+        elif op["op"] == "lend":
+            self.op_lend(op)
         elif op["op"] == "assign":
             if self.t == "emg":
                 return
@@ -210,6 +212,13 @@ class Interp:
                 else:
                     self.model = list(els)
                     self.stats["assign-ok"] += 1
+                    if isinstance(arg, list) and cont != "self":
+                        # the caller goes on using ITS list (appends a track of another length, then empties it): that is not a call on the block
+                        self.counter += 1
+                        arg.append(make_track(self.t, self.n + 1, "callers-own", self.counter))
+                        self.check_invariant("callers-list-appended")
+                        del arg[:]
+                        self.stats["callers-list-mutated"] = self.stats.get("callers-list-mutated", 0) + 1
             else:
                 if raised is None:
                     self.ctx.fail(f"{self.t}/assign/accepts-invalid", f"{self.t}: assigning {op['elems']} ({cont}) did not raise")
@@ -219,6 +228,43 @@ class Interp:
                     self.stats["assign-refused-nonempty"] += bool(self.model)
                     self.stats["refused-on-nonempty"] += bool(self.model)
             self.check_invariant("assign")
+
+    def op_lend(self, op):
+        """another block (of another frame count) is assigned this block's track list while that is empty / takes it over; then a valid
+        add on THIS block: the other block must not receive the track (it has the wrong length for it)"""
+        if self.t == "emg":
+            return
+        m = self.n + 1 + op.get("k", 0) % 3
+        one = np.ones(3, dtype="<f4")
+        if self.t == "data3D":
+            from basictdf.tdfData3D import Data3D
+            other = Data3D(100, m, one, np.eye(3, dtype="<f4"), one)
+        else:
+            from basictdf.tdfForce3D import ForceTorque3D
+            other = ForceTorque3D(100, m, one, np.eye(3, dtype="<f4"), one)
+        if self.model:
+            # this block holds tracks of n frames: the other block (m frames) must refuse them
+            try:
+                other.tracks = self.b.tracks
+                took = True
+            except Exception:  # noqa
+                took = False
+            if took:
+                self.ctx.fail(f"{self.t}/lend/accepts-wrong-length", f"{self.t}: a block of {m} frames accepted the {self.n}-frame tracks of another block as its track list")
+        else:
+            err = None
+            try:
+                other.tracks = self.b.tracks   # an empty list: valid for any block
+            except Exception as e:  # noqa
+                err = e
+            if err is not None:
+                self.ctx.fail(f"{self.t}/lend/refuses-empty", f"{self.t}: assigning another block's empty track list raised {type(err).__name__}")
+        self.apply({"op": "add", "kind": "right"})
+        bad = [x for x in other.tracks if true_lengths(self.t, x) != {m}]
+        if bad:
+            self.ctx.fail(f"{self.t}/lend/wrong-length-track-inside-other-block", f"{self.t}: after 'other.tracks = block.tracks' and a valid add on the first block, the other block "
+                                                                                  f"({m} frames) holds {len(bad)} track(s) of {self.n} frames")
+        self.stats["lent-list"] = self.stats.get("lent-list", 0) + 1
 
     def finish(self):
         self.check_invariant("end")
@@ -249,7 +295,8 @@ def ops(t):
     assign = st.fixed_dictionaries({"op": st.just("assign"), "elems": elems,
                                     "container": st.sampled_from(["list", "list", "tuple", "generator", "generator-raises", "non-iterable", "self", "object-array", "twice",
                                                                  "self-reversed", "self-iter", "self-filter", "self-chain"])})
-    return st.one_of(add, assign, assign)
+    lend = st.fixed_dictionaries({"op": st.just("lend"), "k": st.integers(0, 5)})
+    return st.one_of(add, add, assign, assign, assign, lend)
 
 
 def make(t):
@@ -263,4 +310,42 @@ def make(t):
                rule=f"{t}: histories of add / assign with invalid elements at generated positions")
 
 
+def enum_length_grid(tier):
+    """block lengths up to a million frames x wrong lengths that are close in ABSOLUTE or RELATIVE terms (one frame off, one part in 10^5 / 10^3 off)"""
+    for t in ("data3D", "force3D", "emg"):
+        for n in (1, 2, 255, 256, 1000, 65535, 65536, 100000, 100001, 250000) + ((1000000,) if t == "emg" else ()):
+            yield {"t": t, "n": n}
+
+
+def run_length_grid(ctx, case):
+    t, n = case["t"], case["n"]
+    it = Interp(ctx, {"t": t, "n": n, "tracks": 1})
+    deltas = sorted({-1, 1, -2, 2, max(1, n // 100000), -max(1, n // 100000), max(1, n // 1000), -max(1, n // 1000), max(1, n // 100)})
+    refused = 0
+    for d in deltas:
+        m = n + d
+        if m < 0 or m == n:
+            continue
+        tr = make_track(t, m, f"w{d}", 3)
+        for how in ("add", "assign"):
+            if how == "assign" and t == "emg":
+                continue
+            try:
+                if how == "add":
+                    (it.b.addSignal if t == "emg" else it.b.add_track)(tr)
+                else:
+                    it.b.tracks = [make_track(t, n, "ok", 5), tr]
+                accepted = True
+            except Exception:  # noqa
+                accepted = False
+                refused += 1
+            if accepted:
+                ctx.fail(f"{t}/length-grid/accepts-wrong-length", f"{t}: a block of {n} frames accepted a track of {m} frames ({how})")
+    it.check_invariant("length-grid")
+    ctx.case(case, refused > 0, labels=[t, f"n={n}"])
+
+
 SUBS = [make(t) for t in ("data3D", "force3D", "emg")]
+SUBS.append(Sub("length-grid", run_length_grid, kind="enum", enumerate=enum_length_grid, shards=(8, 16),
+                rule="3 block kinds x frame counts 1 .. 250 000 (EMG: 1 000 000) x wrong lengths one / two frames, one part in 10^5, 10^3, 10^2 off, through add and list assignment; "
+                     "finite, enumerated"))
